@@ -33,6 +33,11 @@ ASSUMPTIONS = [
 
 
 MUTANTS = [
+    ("forced noise level overwritten by the estimate",
+     "AegeanTools/source_finder.py",
+     "        if forced_rms is None:\n            self.global_data.rmsimg = rms",
+     "        if forced_bkg is None:\n            self.global_data.rmsimg = rms",
+     "C02-R11"),
     ("seed test on the pixel of highest flux", "AegeanTools/source_finder.py",
      "        if np.any(snr[xmin:xmax, ymin:ymax][own] > seed_clip):",
      "        pk = np.argmax(abs(im - bkg)[xmin:xmax, ymin:ymax][own])\n"
@@ -323,6 +328,11 @@ def run(ctx):
                   node=setm[0] if setm else m.loop)
     r8_loop(ctx, prog, m)
     r9_background(ctx, prog)
+    # islands are found in the maps that were GIVEN: a forced noise level /
+    # background is not replaced by the internal estimate (shared with
+    # C01-R9)
+    from .c01 import r9 as _forced_maps
+    _forced_maps(ctx, prog, rule="C02-R11")
     # ---------------------------------------------------------------- R10
     ctx.rule("C02-R10", "find_islands is a function of its arguments: it "
              "does not write into the image / background / noise arrays it "
